@@ -134,8 +134,23 @@ def run(fx, tier):
                 elif fl is None and f.cls != 'publish_send_op':
                     v.fail('R-CGRAPH', '%s::%s sends with non-constant flags' % (f.cls, f.n), 'flags not constant',
                            key='C09:R-CGRAPH:flags-nonconst:%s::%s' % (f.cls, f.n), where='%s:%d' % (f.path_file(), l))
-    if n_term == 0:
+    # ... and disconnect_op::send_disconnect DOES pass it (DISCONNECT first and last: the flag is what moves it to the front
+    # of the queue and makes it the only packet of its write)
+    n_sd = 0
+    for f in fx.functions(cls='disconnect_op', name='send_disconnect'):
+        for b, i, l, c in f.calls():
+            if callee_name(c) == 'async_send' and callee_cls(c) == 'client_service' and len(c.get('args', [])) >= 3:
+                n_sd += 1
+                fl = peval(origin(f, c['args'][2]))
+                v.check(fl is not None and bool(fl & 4), 'R-CGRAPH', 'disconnect_op::send_disconnect flags [%s]' % f.tu,
+                        'the DISCONNECT is sent with send_flag::terminal (flags=%s)' % fl,
+                        key='C09:R-CGRAPH:send_disconnect:terminal-flag', where='%s:%d' % (f.path_file(), l))
+    if n_term == 0 and not v.violations:
         raise AnalysisBroken('no terminal send site found')
+    if n_sd == 0 and not v.violations:
+        raise AnalysisBroken('disconnect_op::send_disconnect: async_send not found')
+    from c05 import terminal_cancel_rule
+    terminal_cancel_rule(fx, v, 'C09', 'R-CGRAPH')
 
     # ---------------------------------------------------------------- disconnect_op graph
     for f in entry_points(fx, ('disconnect_op',)):
